@@ -96,35 +96,71 @@ func init() {
 		return verdictStr(wc.Verify(dBytes(a[1]), c, pk, dInt(a[3]), dInt(a[4]), dInt(a[5]), dInt(a[6]), dInt(a[7]), dPoint(c, a[9])))
 	}
 	goOps["wire_roundtrip"] = func(a []string) string {
+		// the proof is rebuilt from its components, serialised with its own Bytes() and parsed back
 		parts := dInts(a[0])
-		bzs := make([][]byte, len(parts))
-		for i, p := range parts {
-			bzs[i] = p.Bytes()
+		toSlice := func(n int, get func(i int) []byte) [][]byte {
+			o := make([][]byte, n)
+			for i := range o {
+				o[i] = get(i)
+			}
+			return o
 		}
 		var out []*big.Int
 		var err error
 		switch atoi(a[1]) {
 		case mta.RangeProofAliceBytesParts:
+			if len(parts) != mta.RangeProofAliceBytesParts {
+				return "err"
+			}
+			bz := rangeFromInts(parts).Bytes()
 			var p *mta.RangeProofAlice
-			p, err = mta.RangeProofAliceFromBytes(bzs)
+			p, err = mta.RangeProofAliceFromBytes(toSlice(len(bz), func(i int) []byte { return bz[i] }))
 			if err == nil {
 				out = rangeToInts(p)
 			}
 		case mta.ProofBobBytesParts:
+			if len(parts) != mta.ProofBobBytesParts {
+				return "err"
+			}
+			bz := bobFromInts(parts).Bytes()
 			var p *mta.ProofBob
-			p, err = mta.ProofBobFromBytes(bzs)
+			p, err = mta.ProofBobFromBytes(toSlice(len(bz), func(i int) []byte { return bz[i] }))
 			if err == nil {
 				out = bobToInts(p)
 			}
+		case mta.ProofBobWCBytesParts:
+			// a[2] = curve tag; the last two components are the coordinates of U
+			if len(parts) != mta.ProofBobWCBytesParts || len(a) < 3 {
+				return "err"
+			}
+			ec := curveByTag(a[2])
+			u := crypto.NewECPointNoCurveCheck(ec, parts[10], parts[11])
+			bz := (&mta.ProofBobWC{ProofBob: bobFromInts(parts[:10]), U: u}).Bytes()
+			var p *mta.ProofBobWC
+			p, err = mta.ProofBobWCFromBytes(ec, toSlice(len(bz), func(i int) []byte { return bz[i] }))
+			if err == nil {
+				out = append(bobToInts(p.ProofBob), p.U.X(), p.U.Y())
+			}
 		case facproof.ProofFacBytesParts:
+			if len(parts) != facproof.ProofFacBytesParts {
+				return "err"
+			}
+			bz := facFromInts(parts).Bytes()
 			var p *facproof.ProofFac
-			p, err = facproof.NewProofFromBytes(bzs)
+			p, err = facproof.NewProofFromBytes(toSlice(len(bz), func(i int) []byte { return bz[i] }))
 			if err == nil {
 				out = facToInts(p)
 			}
 		case modproof.ProofModBytesParts:
+			if len(parts) != modproof.ProofModBytesParts {
+				return "err"
+			}
+			pm := &modproof.ProofMod{W: parts[0], A: parts[modproof.Iterations+1], B: parts[modproof.Iterations+2]}
+			copy(pm.X[:], parts[1:modproof.Iterations+1])
+			copy(pm.Z[:], parts[modproof.Iterations+3:])
+			bz := pm.Bytes()
 			var p *modproof.ProofMod
-			p, err = modproof.NewProofFromBytes(bzs)
+			p, err = modproof.NewProofFromBytes(toSlice(len(bz), func(i int) []byte { return bz[i] }))
 			if err == nil {
 				out = append(append(append([]*big.Int{p.W}, p.X[:]...), p.A, p.B), p.Z[:]...)
 			}
